@@ -330,7 +330,9 @@ class NumpyDataWrapper(SourceDataWrapper):
         """
 
         if self._dtype == self._data_source.dtype:
-            return self._data_source[start:stop]
+            if stop is None:
+                stop = self._n_rows
+            return self._data_source[self._from_idx + start:self._from_idx + stop]
 
         return super().load_chunk(start, stop)
 
